@@ -381,6 +381,20 @@ pub fn compile_to_string_render(
     bp: &BuilderPath,
     render_against: &[String],
 ) -> CompileOut {
+    compile_to_string_render_gated(backend, srcs, bp, render_against, &|| true)
+}
+
+/// As above; `gate` is evaluated after the compilation and decides whether `contextualize`
+/// is called with `render_against` (Display is always rendered). Used when the text the
+/// compiler saw came through the simulated disk and the harness must first make sure that
+/// `render_against` really is that text.
+pub fn compile_to_string_render_gated(
+    backend: &BackendSel,
+    srcs: &[Src],
+    bp: &BuilderPath,
+    render_against: &[String],
+    gate: &dyn Fn() -> bool,
+) -> CompileOut {
     let r = catch_unwind(AssertUnwindSafe(|| {
         let res = match backend {
             BackendSel::Rasn(cfg) => {
@@ -406,7 +420,11 @@ pub fn compile_to_string_render(
         if let Some(e) = &err {
             all.push(e);
         }
-        render_all(&all, render_against);
+        if gate() {
+            render_all(&all, render_against);
+        } else {
+            render_all(&all, &[]);
+        }
         out
     }));
     match r {
